@@ -129,6 +129,22 @@ pub fn search(rng: &mut Rng, budget: u64, fails: &mut Vec<Failure>) {
                     Err(_) => if ok { fails.push(Failure { what: "PlainTime string rejected".into(), input: g.text.clone(), expected: "accepted".into(), observed: "Err".into() }); },
                 }
             }
+            // the same time as a time-only string (goes through the time grammar, not the date-time pre-checks)
+            if let Some(sep) = g.text.char_indices().skip(8).find(|(_, c)| *c == 'T' || *c == 't' || *c == ' ').map(|(i, _)| i) {
+                let rest = &g.text[sep + 1..];
+                let end = rest.char_indices().find(|(_, c)| matches!(*c, 'Z' | 'z' | '+' | '-' | '[')).map(|(i, _)| i).unwrap_or(rest.len());
+                let time_only = rest[..end].to_string();
+                let ok_t = !too_many && g.valid_generic;
+                let t2 = time_only.clone();
+                match catch_unwind(move || PlainTime::from_str(&t2)) {
+                    Err(_) => fails.push(Failure { what: "PlainTime parser panicked".into(), input: time_only.clone(), expected: format!("accept={ok_t}"), observed: "panic".into() }),
+                    Ok(Ok(pt)) => {
+                        let got = (pt.hour() as i64, pt.minute() as i64, pt.second() as i64, pt.millisecond() as i64 * 1_000_000 + pt.microsecond() as i64 * 1000 + pt.nanosecond() as i64);
+                        if !ok_t || got != (g.h, g.mi, sec, g.frac_ns) { fails.push(Failure { what: "PlainTime (time-only string) value/verdict".into(), input: time_only.clone(), expected: format!("accept={ok_t} {:?}", (g.h, g.mi, sec, g.frac_ns)), observed: format!("{got:?}") }); }
+                    }
+                    Ok(Err(_)) => if ok_t { fails.push(Failure { what: "PlainTime (time-only string) rejected".into(), input: time_only.clone(), expected: "accepted".into(), observed: "Err".into() }); },
+                }
+            }
             let in_date_range = { let n = oracle::days_from_civil(g.y, g.mo, g.d); n >= oracle::MIN_DAY + 1 && n <= oracle::MAX_DAY };
             let t = g.text.clone();
             if let Ok(r) = catch_unwind(move || PlainDate::from_str(&t)) {
